@@ -32,13 +32,18 @@ MODEL = dict(
         # every registry reachable by <= 3 (thorough: 4) add/remove/update calls x every set of <= 2 (3)
         # claims (good / tampered) held by an arbitrary identity contract x one late call (de-listing after
         # signing, revocation, nonce bump, key removal, expiry)
-        _mc("verify", rot=0, every=40, tevery=150, thorough=dict(Max1=4, Max2=3)),
+        _mc("verify", rot=0, every=60, tevery=300, Max2=3,
+            thorough=dict(Max1=4, P3={"add_topic", "add_issuer", "rm_topic", "rm_issuer", "upd_issuer", "revoke",
+                                      "bump", "remove_key", "tick"})),
+        # longer registry histories (a topic or an issuer removed and listed again) over one good claim
+        _mc("relist", rot=2, every=20, tevery=20, Defects={"none"}, Max1=4, Max2=2, Max3=1,
+            P2={"add_claim"}, P3={"add_topic", "rm_topic", "rm_issuer", "upd_issuer"}),
         # the same over the library-backed identity (add_claim refuses what the issuer refuses; index upkeep)
         _mc("verify_lib", rot=1, every=40, tevery=60, Ids={"ida"}, Untils={2, 9},
             P3={"rm_topic", "rm_issuer", "upd_issuer", "revoke", "bump", "remove_key", "tick", "rm_claim"},
             thorough=dict(Max2=3, Max3=2)),
         # every single corruption of a claim, on both identity contracts, under a fixed small registry
-        _mc("defects", rot=2, every=12, tevery=4, Topics={"t1"}, Issuers={"i1"}, Ids={"ida", "idb"},
+        _mc("defects", rot=2, every=6, tevery=2, Topics={"t1"}, Issuers={"i1"}, Ids={"ida", "idb"},
             Keys={"k1", "k2"}, Defects=ALL_DEFECTS, Untils={1, 9}, P1={"add_topic", "add_issuer"},
             P2={"add_claim", "tick"}, P3={"tick", "bump", "revoke"}, Max1=2, Max2=2, Max3=1),
         # issuer side: key allowed / removed per (topic, registry) pair, revoke / un-revoke, nonce bump and
